@@ -9,9 +9,16 @@ Import ListNotations.
 Open Scope list_scope.
 Local Open Scope nat_scope.
 
-(* the binders of every definition are pairwise distinct and distinct from the parameters *)
-Definition gub (p : fsprog) : bool :=
-  forallb (fun d => nodupb (cids (fsdctx d) ++ cbinders (fsdbody d))) (fspdefs p).
+(* gub (Sem/FsFrag2.v) is stated with its own copy of the binder list *)
+Lemma fs_binders_eq_all :
+  (forall t, fs_binders_term t = cbinders_term t) /\
+  (forall c, cids (clause_ctx c) ++ fs_binders (clause_body c) = cids (clause_ctx c) ++ cbinders (clause_body c)) /\
+  (forall s, fs_binders s = cbinders s).
+Proof.
+  apply fs_mutind; intros; try reflexivity; try (simpl; rewrite ?H, ?H0; reflexivity).
+Qed.
+Lemma fs_binders_eq : forall s, fs_binders s = cbinders s.
+Proof. apply fs_binders_eq_all. Qed.
 
 Lemma lin_binders_eq : forall s, pre_linear s = true -> LinCheck.binders s = ShrinkProof.binders s.
 Proof.
@@ -100,7 +107,7 @@ Proof.
   apply andb_true_intro. split.
   - apply nodupb_NoDup. apply NoDup_cnt. intros i. destruct (N.leb i m0) eqn:Ei.
     + apply N.leb_le in Ei. eapply (defs_rel_old _ _ _ _ Hrel (N.le_refl _)); eauto.
-      intros d Hd. unfold gub in Hgub. rewrite forallb_forall in Hgub. apply nodupb_NoDup. now apply Hgub.
+      intros d Hd. unfold gub in Hgub. rewrite forallb_forall in Hgub. apply nodupb_NoDup. rewrite <- fs_binders_eq. now apply Hgub.
     + apply N.leb_gt in Ei. destruct (Hfc i Ei) as [Hc1 _]. pose proof (cnt_def_in _ _ i Hx) as Hd. unfold def_binders in Hd. rewrite cnt_cons in Hd. lia.
   - apply forallb_forall. intros i Hi. apply N.leb_le. rewrite forallb_forall in Hle. pose proof (Hle x Hx) as Hd. unfold def_le in Hd. apply andb_prop in Hd as [Hd1 Hd2].
     apply in_app_or in Hi as [Hi|Hi]; [eapply actx_le_ids; eauto | eapply ax_le_binders; eauto].
